@@ -161,7 +161,7 @@ pub fn check_graph(item: u64, g: &GraphSpec, desc: &str, sig: &[Vec<isize>], acc
             if n_sp > 1 {
                 acc.count("graphs_with_several_spanning_subsets");
             }
-            if item < 3 {
+            if acc.samples.is_empty() {
                 acc.sample(json!({"graph": g.describe(), "generator": desc, "subsets": full + 1, "spanning_subsets": n_sp, "loops": l_full, "dod": tv.graph_dod}));
             }
             if !bad.is_empty() {
